@@ -75,7 +75,8 @@ type Task struct {
 	resume chan struct{}
 	state  tstate
 	pend   msg
-	grant  bool // result of the last trylock
+	grant  bool  // result of the last trylock
+	arrive int64 // order in which pending requests reached the scheduler
 	prio   int
 	first  unsafe.Pointer // object of the first yield (identifies bg goroutines)
 	Steps  int
@@ -167,6 +168,7 @@ type Run struct {
 	aborted  bool
 	finished bool
 	halt     bool // stop the run without a violation (simulated kill)
+	arrivals int64
 	step     int64
 	locks    []lockEnt
 	events   []*Event
@@ -463,9 +465,23 @@ func (r *Run) enabled(t *Task) bool {
 		l := r.lockOf(t.pend.obj)
 		return l.owner == nil && l.readers == 0
 	case KRLock:
-		return r.lockOf(t.pend.obj).owner == nil
+		if r.lockOf(t.pend.obj).owner != nil {
+			return false
+		}
+		// like sync.RWMutex, a writer that asked first blocks later readers
+		// (this is what turns recursive read locking into a deadlock)
+		return !r.writerWaitingBefore(t)
 	}
 	return true
+}
+
+func (r *Run) writerWaitingBefore(t *Task) bool {
+	for _, o := range r.tasks {
+		if o != t && o.state == tsParked && o.pend.k == KLock && o.pend.obj == t.pend.obj && o.arrive < t.arrive {
+			return true
+		}
+	}
+	return false
 }
 
 // quiesce waits until every goroutine of the bubble is durably blocked, then
@@ -524,6 +540,8 @@ drain:
 		default:
 			t.state = tsParked
 			t.pend = m
+			r.arrivals++
+			t.arrive = r.arrivals
 		}
 	}
 	for _, t := range r.tasks {
@@ -557,7 +575,7 @@ func (r *Run) resume(t *Task) {
 		}
 	case KTryRLock:
 		l := r.lockOf(m.obj)
-		t.grant = l.owner == nil
+		t.grant = l.owner == nil && !r.writerWaitingBefore(t)
 		if t.grant {
 			l.readers++
 		}
